@@ -177,7 +177,7 @@ PROPS = {
                                    "json.Encoder", "json.Escape", "json.AppendEscape", "json.appendCompactEscapeHTML", "json.constructStructType",
                                    "json.below", "json.contains", "json.expand", "json.escapeByteRepr", "json.isValidTag", "json.intStringsAreSorted"],
         allowed_native=["Enc.Lemmas.Json", "Lemmas.Json"],
-        main_theorem="Enc.Props.C01 (encodeString = appendString; formatInteger = decimal)",
+        main_theorem="Enc.Props.C01.encodeString_eq, formatInteger_eq, appendInt_eq (scalar encoders = encoding/json's appendString / strconv decimal, for every input)",
         rule="(a) scalar layer through the Lean driver: strings with an escapable byte at every offset 0..24 relative to the 8-byte "
              "scan x {EscapeHTML on/off}, U+2028/9 and invalid UTF-8 forms, random strings; integers at every power of 2 and 10 "
              "boundary; Escape/AppendEscape; Duration. (b) type-directed differential vs encoding/json: random types built with "
@@ -189,5 +189,27 @@ PROPS = {
         trusted_base=["encoding/json of the installed toolchain is the oracle (in-process)",
                       "strconv.AppendFloat, base64, time formatting are shared parameters (called by both)"],
         assumptions=["the struct-field resolution / codec construction layer is decided by differential testing, not by theorem"],
+    ),
+    "C02": dict(
+        lean_modules=["Enc.Props.C02"],
+        variants=V_DEFAULT, areas=["json.decoder", "json.Parse", "json.Unmarshal", "json.Decoder", "json.constructCodec", "json.constructMapCodec",
+                                   "json.constructStructType", "json.appendStructFields", "json.hasNullPrefix", "json.appendToLower", "json.foldRune",
+                                   "json.skipSpaces", "json.appendRune", "json.appendCoerceInvalidUTF8", "json.internalParseFlags"],
+        allowed_native=["Enc.Lemmas.Json", "Lemmas.Json"],
+        main_theorem="Enc.Props.C02 (integer scalar decoders: loops compute the decimal value or report overflow; surrogate/escape tables)",
+        rule="(a) scalar layer through the Lean driver: integer literals at every width boundary +-1, 19/20-digit values around the "
+             "wrap-around points of value*10+x, leading zeros, floats into integers, random 64-bit magnitudes, into all ten integer "
+             "types (model = implementation = transcription of encoding/json's literalStore); string literals with every escape, "
+             "surrogate pairs, lone surrogates, invalid UTF-8 (model = implementation = transcription of unquoteBytes); "
+             "(b) type-directed differential vs encoding/json: random target types (as C01, plus Unmarshaler / TextUnmarshaler value and "
+             "pointer receivers) x documents obtained by marshalling a random value of the type with encoding/json and applying "
+             "structure-aware edits (key case, scalar swaps, duplicate and unknown members, null, surplus/missing elements, syntax "
+             "damage) or arbitrary documents x {Unmarshal, Parse, Decoder x UseNumber x DisallowUnknownFields} x {fresh, pre-populated "
+             "target}; compares nil/non-nil error and, when both succeed, the stored values (encoding/json's rendering of them and "
+             "reflect.DeepEqual)",
+        trusted_base=["encoding/json of the installed toolchain is the oracle (in-process)",
+                      "strconv.ParseFloat, base64, time parsing are shared parameters (called by both)"],
+        assumptions=["the codec-construction / struct-field resolution layer is decided by differential testing, not by theorem",
+                     "error values are compared as nil / non-nil only (the property says so)"],
     ),
 }
